@@ -421,12 +421,13 @@ def plan(tier):
         for p in (("A", "B"), ("C", "E"), ("D", "F")):
             for c in (["SolverCacheless"], ["SolverComposite"], ["SolverHybrid"], ["Solver", "SolverComposite"]):
                 cfgs.append(dict(hists=list(p), cls=c, bound=1))
-        for p in (("S", "T"), ("C", "C"), ("A", "G")):
-            cfgs.append(dict(hists=list(p), cls=S, bound=2, max_exec=40000))
+        # two preemptions: the number of schedules grows quadratically with the ~240 decision points (one core each)
+        for p in (("S", "T"), ("G", "S")):
+            cfgs.append(dict(hists=list(p), cls=S, bound=2, max_exec=8000))
         for p in (("S", "T", "S"), ("C", "C", "T"), ("S", "G", "T")):
-            cfgs.append(dict(hists=list(p), cls=S, bound=1, max_exec=40000))
+            cfgs.append(dict(hists=list(p), cls=S, bound=1, max_exec=6000))
         cfgs.append(dict(hists=["S", "T"], cls=S, bound=1, points="full"))
-        cfgs.append(dict(hists=["C", "E"], cls=S, bound=1, points="full", max_exec=40000))
+        cfgs.append(dict(hists=["C", "E"], cls=S, bound=1, points="full", max_exec=6000))
     return cfgs
 
 
